@@ -306,6 +306,66 @@ def run(ctx):
             shutil.rmtree(root, ignore_errors=True)
     pmap(opt, list(enumerate(combos)), workers=6)
 
+    # (iii-b) options of the Python / C++ back ends in a package that imports another one
+    def opt_import(i):
+        pynd, cppnd, via_cli, pydisabled = bool(i & 1), bool(i & 2), bool(i & 4), (i == 8)
+        root = os.path.join(ctx.workdir, "cases", "optimp_%d" % i)
+        shutil.rmtree(root, ignore_errors=True)
+        args, cppsec, pysec = [], "cpp:\n  sourcesOutputDir: ../out/cpp\n  generateHDF5: false\n  generateCMakeLists: false\n  overrideArrayHeader: %s\n" % cxx.ARRAY_HEADER, "python:\n  outputDir: ../out/python\n"
+        if via_cli:
+            args = ["-c", "python.generateNDJson=%s" % ("true" if pynd else "false"), "-c", "cpp.generateNDJson=%s" % ("true" if cppnd else "false")]
+        else:
+            pysec += "  generateNDJson: %s\n" % ("true" if pynd else "false")
+            cppsec += "  generateNDJson: %s\n" % ("true" if cppnd else "false")
+        if pydisabled:
+            pysec += "  disabled: true\n"
+        common.write_tree(root, {"lib/_package.yml": "namespace: OptLib\n", "lib/lib.yml": "LibRec: !record\n  fields:\n    a: int\n    u: [int, string]\nLibEnum: !enum\n  values: [p, q]\n"
+                                 "LibProto: !protocol\n  sequence:\n    r: LibRec\n",
+                                 "pkg/_package.yml": "namespace: OptHost\nimports:\n  - ../lib\n" + cppsec + pysec,
+                                 "pkg/model.yml": "HostRec: !record\n  fields:\n    l: OptLib.LibRec\n    e: OptLib.LibEnum\n    v: OptLib.LibRec*\nHostProto: !protocol\n  sequence:\n    h: HostRec\n    s: !stream\n      items: OptLib.LibRec\n"})
+        res = check_outputs(ctx, root, os.path.join(root, "pkg"), home, "imports + python.generateNDJson=%s cpp.generateNDJson=%s%s%s" % (pynd, cppnd, " via -c" if via_cli else "", " python disabled" if pydisabled else ""),
+                            "options-import", args=args, python=not pydisabled, full_cpp=cppnd)
+        if pydisabled and os.path.isdir(os.path.join(root, "out/python")):
+            ctx.violation("option-ignored:disabled", "python.disabled: true but Python output was written", {"case_dir": root})
+            res = "bad"
+        ctx.case(("options-import", i))
+        ctx.count("options-import.%s" % res)
+        if res != "bad":
+            shutil.rmtree(root, ignore_errors=True)
+    pmap(opt_import, list(range(9)), workers=6)
+
+    # (iii-c) documentation comments that are hostile to the comment / docstring syntax of a target language
+    DOCS = ['ends with a "quote"', '"starts with a quote', 'tri"""ple quotes', "tri'''ple single", "ends with a backslash \\", "\\", "has */ inside", "/* opens a block",
+            "percent %s %d %%", "{braces} ${x} #{y}", "back\\slash n \\n and \\t", "üñí \u00e7 😀", "</summary> <b>&amp;", "'", '"', '""', "`tick`", "trailing space ", "#", "##  double hash",
+            "a: b", "- dash", "--> arrow", "??/ trigraph ??)", "\\u0041 escape", "line one\n# line two with \"quote\""]
+    if quick:
+        DOCS = DOCS[:8] + DOCS[-2:]
+
+    def docs(i):
+        d = DOCS[i]
+        lines = d.split("\n# ")
+        def cm(ind):
+            return "".join("%s# %s\n" % (ind, l) for l in lines)
+        model = (cm("") + "DocEnum: !enum\n  values:\n" + cm("    ") + "    one: 1\n" + cm("    ") + "    two: 2\n" +
+                 cm("") + "DocAlias: int*\n" + cm("") + "\"DocGen<T>\": !record\n  fields:\n" + cm("    ") + "    g: T\n" +
+                 cm("") + "DocRec: !record\n  fields:\n" + cm("    ") + "    a: int\n" + cm("    ") + "    arr: !array\n      items: float\n      dimensions:\n" + cm("        ") + "        x:\n" + cm("        ") + "        y:\n" +
+                 cm("    ") + "    u: !union\n" + cm("      ") + "      i: int\n" + cm("      ") + "      s: string\n  computedFields:\n" + cm("    ") + "    twice: a * 2\n" +
+                 cm("") + "DocProto: !protocol\n  sequence:\n" + cm("    ") + "    first: DocRec\n" + cm("    ") + "    items: !stream\n      items: DocEnum\n")
+        root = os.path.join(ctx.workdir, "cases", "docs_%d" % i)
+        shutil.rmtree(root, ignore_errors=True)
+        outs = ("cpp:\n  sourcesOutputDir: ../out/cpp\n  generateHDF5: false\n  generateCMakeLists: false\n  overrideArrayHeader: %s\npython:\n  outputDir: ../out/python\n"
+                "matlab:\n  outputDir: ../out/matlab\njson:\n  outputDir: ../out/json\n" % cxx.ARRAY_HEADER)
+        common.write_tree(root, {"pkg/_package.yml": "namespace: Docs\n" + outs, "pkg/model.yml": model})
+        res = check_outputs(ctx, root, os.path.join(root, "pkg"), home, "documentation comment %r" % d, "doc:%d" % i, full_cpp=True)
+        if res == "rejected":
+            ctx.violation("valid-model-rejected:doc-comment", "a model that only differs by the documentation comment %r is rejected" % d, {"case_dir": root})
+            res = "bad"
+        ctx.case(("docs", d))
+        ctx.count("docs.%s" % res)
+        if res != "bad":
+            shutil.rmtree(root, ignore_errors=True)
+    pmap(docs, list(range(len(DOCS))), workers=6)
+
     # (iv) init scaffolds
     def init(nm):
         root = os.path.join(ctx.workdir, "cases", "init_%s" % nm[:30])
